@@ -25,7 +25,7 @@ BOUND = {
 CHUNK = 4
 BLOCK = 4096
 
-ENCODINGS = ('int', 'collide', 'ident', 'tuple', 'mixed')
+ENCODINGS = ('int', 'collide', 'ident', 'tuple', 'mixed', 'selfneq')
 # how the edges are handed to add_neighbors
 BUILDS = ('list', 'set', 'shared', 'steps', 'empty_first', 'unknown_first', 'gen', 'gen_unknown')
 
@@ -45,7 +45,7 @@ def cases(tier, seed):
             for perm in perms:
                 if enc == 'ident' and perm != perms[0]:
                     continue  # object ids are not ours to order
-                if enc in ('tuple', 'mixed') and perm != perms[0]:
+                if enc in ('tuple', 'mixed', 'selfneq') and perm != perms[0]:
                     continue
                 for lazy in (True, False):
                     for unknown in (False, True):
@@ -111,6 +111,20 @@ class _N:
         self.i = i
 
 
+class _Expr:
+    """A hashable node whose == does not return True for itself (an ORM
+    column, a symbolic expression)."""
+
+    def __init__(self, i):
+        self.i = i
+
+    def __eq__(self, other):
+        return False
+
+    def __hash__(self):
+        return self.i % 2          # (and the hashes collide)
+
+
 MIXED = [0, 'a', (1,), frozenset({2}), 3.5]
 
 
@@ -129,6 +143,14 @@ def run_graph(n, bits, enc, perm, lazy, unknown, build='list'):
         vals = [(perm[i],) if i % 2 == 0 else (perm[i], 'x') for i in range(n)]
         mh = None
         unk = (99,)
+    elif enc == 'selfneq':
+        # hashable nodes that are not equal to themselves: NaN floats, a
+        # decimal NaN, objects whose __eq__ never says True (dicts and sets
+        # find them by identity)
+        import decimal
+        vals = [float('nan'), _Expr(1), decimal.Decimal('NaN'), float('nan')][:n]
+        mh = None
+        unk = float('nan')
     elif enc == 'mixed':
         vals = [MIXED[perm[i]] for i in range(n)]
         mh = None
